@@ -64,7 +64,7 @@ def plan(pid, tier):
         "C05": [job("C05X", "race", timeout=1500, parts=8), job("GATED", "race", arg="C05", timeout=1500, parts=4), job("C05S", "race", timeout=1500, parts=6)],
         "C06": [job("GATED", "race", arg="C06", timeout=1500, parts=8), job("C14", "race", arg="C06", timeout=1500, parts=2)],
         "C14": [job("C14", "race", timeout=1500, parts=4)],
-        "C15": [job("GATED", "race", arg="C15", timeout=1500, parts=8), job("C15S", "race", timeout=1500, parts=4), job("C15D", "race", timeout=900, parts=2)],
+        "C15": [job("GATED", "race", arg="C15", timeout=1500, parts=8), job("C15S", "race", timeout=1500, parts=4), job("C15D", "race", timeout=900, parts=2), job("C14", "race", arg="C15", timeout=900, parts=1)],
         "C07": [job("C07", "race", timeout=1500, parts=4), job("C07D", "race", timeout=900, parts=2)],
         "C08": [job("C08", "race", timeout=1500, parts=8)] + ([job("C08", "race", timeout=1500, parts=4, procs=p) for p in (1, 2, 4)] if T else []),
         "C09": [job("C09", "race", timeout=1500, parts=8)],
